@@ -155,7 +155,7 @@ def conclude(prop, tier, seed, results, extras, wall, partial=False):
     seen_classes = set()
     replayed = 0
     search_cache = {}
-    SEARCH_KINDS = ("smtlib-solver", "hashcons", "optimizer-loop", "oracle", "cnf", "walker", "sort-identity", "parser-reset", "walker-keys", "annotations", "factory")
+    SEARCH_KINDS = ("smtlib-solver", "hashcons", "optimizer-loop", "oracle", "cnf", "walker", "sort-identity", "parser-reset", "walker-keys", "annotations", "factory", "parser-declare", "factory-registration", "model-plural")
     MAX_REPLAYS = 12          # native replays per run; further refutations are reported without one
     for r, o in refuted:
         key = (r["variant"], o["name"].rsplit("/", 1)[1])
